@@ -232,6 +232,63 @@ def run(ctx):
         if r[0] != "ok" or not close(r[1], want, ab=1e-12 + slack):
             det.update({"issue": "one_way_anova is not the size-weighted between-group sum of squares", "returned": r[1:], "expected": float(want)}); ctx.violation("oracle", det, site="TestFunc")
         ops.append(f"testfunc|one_way_anova|{idx}|{ints([code[v] for v in group])}|{rows(resp)}"); meta.append(("tf", det, r, slack))
+    # ---- make_test_array(func, indices)[i](data) == func(data, indices[i]) for index lists that are not 0..k-1
+    for _ in range(ctx.n(60, 600)):
+        n = ctx.rng.randint(4, 8); ncol = ctx.rng.randint(2, 4)
+        group = [0, 1] + [ctx.rng.randint(0, 1) for _ in range(n - 2)]
+        resp = [[float(ctx.rng.randint(0, 9)) for _ in range(ncol)] for _ in range(n)]
+        e = npc.Experiment(group, resp)
+        idxs = ctx.rng.choice([[1, 0], [ncol - 1], [ncol - 1, 0], [1, 1, 0], list(reversed(range(ncol))), [ctx.rng.randrange(ncol) for _ in range(ctx.rng.randint(1, 4))]])
+        asked = []
+        def probe(data, col, asked=asked):
+            asked.append(col); return float(np.sum(data.response[:, col]))
+        for fn_, fname in ((npc.Experiment.TestFunc.mean_diff, "mean_diff"), (probe, "user function")):
+            arr_ = guarded(npc.Experiment.make_test_array, fn_, idxs if ctx.rng.random() < 0.7 else tuple(idxs))
+            ctx.case(("mta", tuple(idxs), fname, tuple(group), tuple(map(tuple, resp))), True); ctx.count("make_test_array-index-lists")
+            bad = None
+            if arr_[0] != "ok" or len(arr_[1]) != len(idxs):
+                bad = "make_test_array failed or returned another number of tests than indices"
+            else:
+                for i_, col in enumerate(idxs):
+                    a_, b_ = guarded(arr_[1][i_], e), guarded(fn_, e, col)
+                    if a_[0] != "ok" or b_[0] != "ok" or a_[1] != b_[1]:
+                        bad = f"make_test_array(func, {idxs})[{i_}](data) != func(data, {col}): {a_[1:]} vs {b_[1:]}"; break
+            if bad:
+                ctx.violation("oracle", {"call": "make_test_array", "function": fname, "indices": idxs, "group": group, "response": resp, "issue": bad}, site="TestFunc")
+    # ---- calls that fail half-way (after the randomisation loop has started) must leave an Experiment used with in_place=False untouched
+    for _ in range(ctx.n(60, 600)):
+        n = ctx.rng.randint(4, 8)
+        labels = ctx.rng.choice([[0, 1], ["T", "C"]])
+        group = list(labels) + [ctx.rng.choice(labels) for _ in range(n - 2)]
+        resp = [[float(ctx.rng.randint(0, 9)), float(ctx.rng.randint(0, 9))] for _ in range(n)]
+        strat = ctx.rng.random() < 0.4
+        cov = [[ctx.rng.choice([0, 1])] for _ in range(n)] if strat else None
+        e = npc.Experiment(group, resp, cov, npc.Experiment.Randomizer(randomize=(npc.randomize_in_strata if strat else npc.randomize_group), seed=ctx.rng.randint(0, 10**6)))
+        tests = npc.Experiment.make_test_array(npc.Experiment.TestFunc.mean_diff, [0, 1])
+        state = {"k": 0}
+        def boom(data, state=state):
+            state["k"] += 1
+            if state["k"] >= 3:
+                raise RuntimeError("user statistic failed")
+            return 0.0
+        snap = (np.array(e.group, dtype=object).tolist(), np.array(e.response).copy(), None if e.covariate is None else np.array(e.covariate).copy())
+        what, call = ctx.rng.choice([
+            ("sim_npc with a single test (nothing to combine)", lambda: npc.sim_npc(e, tests[:1], "fisher", False, 4, 3)),
+            ("sim_npc with an unknown combining function", lambda: npc.sim_npc(e, tests, "no-such-combiner", False, 4, 3)),
+            ("sim_npc with an increasing user combiner", lambda: npc.sim_npc(e, tests, (lambda p: np.sum(p)), False, 4, 3)),
+            ("westfall_young with an unknown method", lambda: npc.westfall_young(e, tests, "maxP", "greater", False, 4, 3)),
+            ("westfall_young with an unknown alternative in the list", lambda: npc.westfall_young(e, tests, "minP", ["greater", "smaller"], False, 4, 3)),
+            ("sim_npc with a user statistic that raises in the third evaluation", lambda: npc.sim_npc(e, [boom, boom], "fisher", False, 4, 3)),
+            ("westfall_young with a user statistic that raises in the third evaluation", lambda: npc.westfall_young(e, [boom, boom], "maxT", "greater", False, 4, 3))])
+        r = guarded(call)
+        ctx.case(("error-path", what, tuple(group), strat), True); ctx.count("error-paths-in_place-False")
+        same_ = np.array(e.group, dtype=object).tolist() == snap[0] and np.array_equal(np.array(e.response), snap[1]) and \
+            ((e.covariate is None and snap[2] is None) or np.array_equal(np.array(e.covariate), snap[2]))
+        if r[0] == "ok" and "raises" not in what and "single" not in what:
+            pass       # the library may accept it; the state check below still applies
+        if not same_:
+            ctx.violation("oracle", {"call": what, "in_place": False, "group_before": snap[0], "group_after": np.array(e.group, dtype=object).tolist(), "stratified": strat,
+                                     "issue": "an in_place=False call that ended in an exception left the Experiment modified", "outcome": str(r)[:160]}, site="Experiment")
     outs = run_model(ops)
     agree = True
     for o, mt in zip(outs, meta):
